@@ -240,13 +240,21 @@ def call_setup(ctx):
     })
     self = Rec("_ActionSubCommands", attrs={"dest": "subcommand", "_name_parser_map": {"fit": subparser} if known else {}})
     rest = ["--lr", "0.1"]
-    return Setup(env={"self": self, "parser": Rec("ArgumentParser"), "namespace": namespace, "values": ["fit"] + rest, "option_string": None},
+    the_parser = Rec("ArgumentParser")
+    return Setup(env={"self": self, "parser": the_parser, "namespace": namespace, "values": ["fit"] + rest, "option_string": None},
                  calls={"parse_kwargs.get": lambda c, a, k: {"env": False}},
-                 data=dict(store=store, known=known, had=had_section, prev=prev, result=result_ns, rest=rest))
+                 data=dict(store=store, known=known, had=had_section, prev=prev, result=result_ns, rest=rest, self_rec=self, self_snapshot=dict(self.attrs), map_snapshot=dict(self.attrs["_name_parser_map"]), the_parser=the_parser))
+
+
+def call_frame(ctx, d):
+    a = d["self_rec"].attrs
+    ctx.oblige("frame", "nothing-of-this-parse-is-remembered-on-the-subcommands-action-or-on-the-parser(a later parse must not see which subcommand an earlier - possibly failed - one named)",
+               set(a) == set(d["self_snapshot"]) and all(a[k] is d["self_snapshot"][k] or a[k] == d["self_snapshot"][k] for k in a) and a["_name_parser_map"] == d["map_snapshot"] and d["the_parser"].attrs == {})
 
 
 def call_post(ctx, st, result):
     d = st.data
+    call_frame(ctx, d)
     ctx.oblige("post", "name-stored-under-dest", d["store"].get("subcommand") == "fit")
     if d["known"]:
         ctx.oblige("post", "subparser-result-stored-under-the-name", d["store"].get("fit") is d["result"])
@@ -256,6 +264,7 @@ def call_post(ctx, st, result):
 
 
 def call_raises(ctx, st, exc):
+    call_frame(ctx, st.data)
     ctx.oblige("raises", f"no-own-exception(got {exc.cls}@{exc.origin})", False)
 
 
